@@ -9,7 +9,7 @@
 From Coq Require Import NArith List Bool.
 Require Import XV.GenSerLegacy XV.SerDefs XV.XmlParseDefs XV.XmlDocDefs XV.SerDocDefs XV.SerEscModel
                XV.SerLegacyDefs XV.SerLegacyModel XV.SerLegacyModel2 XV.SerLegacyCdata XV.SerLegacyAgree
-               XV.SerLegacyMarkup XV.SerLegacyFails.
+               XV.SerLegacyMarkup XV.SerLegacyFails XV.SerLegacyRaw.
 Import ListNotations.
 Local Open Scope N_scope.
 
@@ -298,3 +298,48 @@ Example legacy_fails_everywhere_instances :
   u_ok false [97; 65534; 55357; 56832] = true /\ u_ok false [97; 1] = false /\ u_ok true [97; 1] = true /\
   u_ok true [55357; 98] = false /\ l_ok false [97; 31] = false.
 Proof. repeat split; vm_compute; reflexivity. Qed.
+
+(* ---- the raw marker m_nextIsRaw -------------------------------------------------------------------- *)
+(* lg_events threads the flag as FormatterToXML does (set by processingInstruction(s_piTarget, s_piData),
+   cleared by the next characters() with text or the next cdata()); lg_pieces describes the same output
+   without any flag: for every event list, an event is written raw iff it looks at the flag and a marker
+   is pending before it, a marker writes nothing, and every other event is written by the marker-free
+   function lg_event_out ... *)
+Theorem raw_marker_affects_exactly_one_event : forall g chk suf pre st,
+  lg_events g chk suf st (lg_pending pre) = lg_pieces g chk pre suf st.
+Proof. exact events_are_pieces. Qed.
+Print Assumptions raw_marker_affects_exactly_one_event.
+
+Theorem raw_marker_affects_exactly_one_event_document : forall g chk es,
+  lg_events g chk es [] false = lg_pieces g chk [] es [].
+Proof. exact raw_marker_one_event. Qed.
+Print Assumptions raw_marker_affects_exactly_one_event_document.
+
+(* ... where "a marker is pending" means: among the events before, a marker PI is followed by no
+   characters-with-text / cdata event *)
+Theorem raw_marker_pending_iff : forall pre, lg_pending pre = true <->
+  exists a m b, pre = a ++ m :: b /\ lg_is_marker m = true /\ forallb (fun e => negb (lg_consumes e)) b = true.
+Proof. exact pending_iff. Qed.
+Print Assumptions raw_marker_pending_iff.
+
+(* a marker never leaks: behind the event that used it, and without any marker, the output is that of
+   the marker-free serializer *)
+Theorem raw_marker_does_not_leak : forall g chk pre e r st, lg_consumes e = true -> lg_is_marker e = false ->
+  forallb (fun x => negb (lg_is_marker x)) r = true ->
+  lg_pieces g chk (pre ++ [e]) r st = lg_events_plain g chk r st.
+Proof. exact marker_does_not_leak. Qed.
+Print Assumptions raw_marker_does_not_leak.
+
+Theorem no_marker_is_plain : forall g chk es st, forallb (fun e => negb (lg_is_marker e)) es = true ->
+  lg_events g chk es st false = lg_events_plain g chk es st.
+Proof. exact no_marker_plain. Qed.
+Print Assumptions no_marker_is_plain.
+
+Example raw_marker_example :
+  lg_events (mklcfg 65535 false true true) true
+    [LStart [114] []; LPI lg_raw_target lg_raw_data; LCdata [60; 105; 47; 62]; LCdata [49; 60; 50]; LText [60; 38]; LEnd [114]] [] false
+  = Ok ([60; 114; 62] ++ [60; 105; 47; 62] ++ lg_cdata_open ++ [49; 60; 50] ++ lg_cdata_close ++
+        [38; 108; 116; 59; 38; 97; 109; 112; 59] ++ [60; 47; 114; 62]) /\
+  lg_pending [LPI lg_raw_target lg_raw_data; LComment [103]; LText []] = true /\
+  lg_pending [LPI lg_raw_target lg_raw_data; LCdata []] = false.
+Proof. exact raw_marker_instance. Qed.
